@@ -80,6 +80,11 @@ def optUnlock (l : Lk) (m : Option Mode) (g : Loc → Bool) : List (Instr Loc) :
   | none => []
   | some m => [.unlock l m g]
 
+/-- The bucket lookups of `loadUnits`: `for i := firstID; i != curID; i++`. -/
+def lookups (db : DB) (curID lim : Nat) : List UnitDB :=
+  (List.range (sub32 curID (add32 (sub32 curID lim) 1))).map fun k =>
+    (db.get (add32 (add32 (sub32 curID lim) 1) k)).getD UnitDB.empty
+
 def emptyResp : Resp :=
   { days := true, dnsQueries := [], blockedFiltering := [], replacedSafebrowsing := [], replacedParental := []
     numDNSQueries := 0, numBlockedFiltering := 0, numReplacedSafebrowsing := 0
@@ -144,9 +149,7 @@ def readBody (F : LockFacts) : List (Instr Loc) :=
     -- for i := firstID; i != curID; i++ { loadUnitFromDB(tx, i) }
     .act fun s l =>
       if l.go then
-        (s, { l with stored :=
-          (List.range (sub32 l.curID (add32 (sub32 l.curID l.lim) 1))).map fun k =>
-            (s.db.get (add32 (add32 (sub32 l.curID l.lim) 1) k)).getD UnitDB.empty })
+        (s, { l with stored := lookups s.db l.curID l.lim })
       else (s, l),
     -- finishTxn(tx, false)
     .unlock .tx .W (·.go),
